@@ -4,6 +4,7 @@ import (
 	"bufio"
 	"bytes"
 	"fmt"
+	"github.com/DrmagicE/gmqtt"
 	"math/rand/v2"
 	"runtime"
 	"strings"
@@ -60,6 +61,7 @@ type c06relay struct {
 	totals      []uint32 // packets.TotalBytes of each packet read
 	read        []packets.Packet
 	postPack    []uint32 // TotalBytes after the packet was written back (Pack normalises the header)
+	msgSize     string   // first disagreement between Message.TotalBytes and the encoded PUBLISH
 	sizeChanged string
 	lag         bool // echo one packet behind
 	nextAt      time.Time
@@ -263,6 +265,25 @@ func runC06(tb TB, p *sim.Plan) *sim.Outcome {
 					}
 					r.totals = append(r.totals, packets.TotalBytes(pk))
 					r.read = append(r.read, pk)
+					if pub, ok := pk.(*packets.Publish); ok && r.msgSize == "" {
+						// C06.size for application messages: Message.TotalBytes is the length of the PUBLISH the message is
+						// sent as (the broker's Maximum Packet Size decisions rest on it)
+						msg := gmqtt.MessageFromPublish(pub)
+						if pub.Properties != nil {
+							msg.SubscriptionIdentifier = pub.Properties.SubscriptionIdentifier
+						}
+						if pub.Qos > 0 {
+							msg.PacketID = pub.PacketID
+						}
+						v := packets.Version311
+						if r.ver == 5 {
+							v = packets.Version5
+						}
+						var b bytes.Buffer
+						if err := gmqtt.MessageToPublish(msg, v).Pack(&b); err == nil && int(msg.TotalBytes(v)) != b.Len() {
+							r.msgSize = fmt.Sprintf("Message.TotalBytes reports %d for a message (%d subscription identifiers, %d user properties, payload %d bytes) that is encoded as a PUBLISH of %d bytes", msg.TotalBytes(v), len(msg.SubscriptionIdentifier), len(msg.UserProperties), len(msg.Payload), b.Len())
+						}
+					}
 					out1 := pk
 					if r.lag {
 						// echo one packet behind: the previous packet is written only after this one was read
@@ -359,6 +380,9 @@ func runC06(tb TB, p *sim.Plan) *sim.Outcome {
 				} else {
 					out.Probes["damaged_rejected"]++
 				}
+			}
+			if r.msgSize != "" && !r.garbled {
+				fail("size", "message-totalbytes", "relay %d (v%d): %s", i, r.ver, r.msgSize)
 			}
 			// C06.size (again, late): a packet's size must not change when the reader goes on to later packets
 			if r.sizeChanged != "" && !r.garbled {
